@@ -310,6 +310,26 @@ def rule_casl(S):
          'only set_body stores the word directly' if (not bad and stores) else
          '%s stores the version word without a compare-exchange' % (bad[0][0].qname if bad else 'nobody'),
          loc=short_loc(bad[0][1]) if bad else None)
+    # who may call set_body: a plain store overwrites the whole word, so a compare-exchange another thread completes on
+    # a different field between the caller's load and this store is lost (the root bit is updated by the holder of the
+    # PARENT's lock, not of the node's own lock)
+    RAW_OK = {NV + '::init': 'resets the word of a node that is being initialised',
+              Y + 'base_node::set_version': 'the raw-store entry point; its call sites are decided by R-RAWV (unpublished '
+                                            'nodes only)'}
+    callers = []
+    for f in facts.functions.values():
+        if not f.blocks:
+            continue
+        for x in f.all_nodes():
+            if is_call(x, cq=NV + '::set_body'):
+                callers.append((f, x))
+    badc = [(f, x) for f, x in callers if f.qname not in RAW_OK]
+    S.ob('R-CASL', NV + '::set_body', 'callers of the plain store', not badc and bool(callers),
+         'called only by %s' % ', '.join(sorted({f.qname for f, _ in callers})) if (not badc and callers) else
+         ('%s stores a whole version word it loaded earlier (get_body ... set_body) instead of updating the field '
+          'through a compare-exchange: an update another thread makes to a different field in between is overwritten'
+          % badc[0][0].qname if badc else 'nobody calls set_body'),
+         loc=short_loc(badc[0][1]) if badc else None)
 
 
 def rule_mx(S):
